@@ -26,12 +26,12 @@ LEVEL = "exploration"
 RULE = (
     "A: every L in 1..200 plus 201..100000 in steps, at 11 classification sites (enumerated once each); "
     "B: Hypothesis multisets of function lengths over 1..6 real source files in C/Java/JavaScript/Python/TypeScript/C++/C# "
-    "x quiet on/off x paths-as-files/as-directory through check_command. Non-trivial = the case contains a length "
+    "(a quarter of them stored as ISO-8859-1) x quiet on/off x paths-as-files/as-directory through the check entry point. Non-trivial = the case contains a length "
     "within 2 of a boundary (13..17, 28..32, 58..62); distinct by digest of (files, lengths, mode)"
 )
 ASSUMPTIONS = [
     "part B uses flat functions only, whose measured length does not depend on the nesting logic (that is C01's subject)",
-    "check_command is called in-process with stdout captured (the sandbox's typer/click pair mis-parses --quiet on the real command line)",
+    "the check entry function of codelimit.__main__ is called in-process with stdout captured (the sandbox's typer/click pair mis-parses --quiet on the real command line)",
     "colour is observed at the API level (rich Style), symbols also in the rendered output",
 ]
 FLOOR = {"quick": 300, "thorough": 4000}
